@@ -169,8 +169,14 @@ func ThreeArcCam2D(
 	p = v2.Vec{0, distance}.Sub(s.flankCenter)
 	s.thetaNose = math.Atan2(p.Y, p.X)
 	// work out the bounding box
-	// TODO fix this - it's wrong if the flank radius is small
-	s.bb = Box2{v2.Vec{-baseRadius, -baseRadius}, v2.Vec{baseRadius, distance + noseRadius}}
+	// The flank arcs bulge past the base circle when the flank radius is small:
+	// if the flank arc crosses the horizontal through its center, the x extent
+	// is set by the flank circle (which contains the base and nose circles).
+	xmax := baseRadius
+	if s.thetaBase < 0 && s.thetaNose > 0 {
+		xmax = math.Max(xmax, s.flankCenter.X+flankRadius)
+	}
+	s.bb = Box2{v2.Vec{-xmax, -baseRadius}, v2.Vec{xmax, distance + noseRadius}}
 	return &s, nil
 }
 
